@@ -3059,6 +3059,7 @@ class Parser:
         self._match(TokenType.ON)
         if self._match(TokenType.L_PAREN):
             while self._curr and not self._match(TokenType.R_PAREN):
+                index = self._index
                 if self._match_text_seq("HISTORY_TABLE", "="):
                     prop.set("this", self._parse_table_parts())
                 elif self._match_text_seq("DATA_CONSISTENCY_CHECK", "="):
@@ -3067,6 +3068,11 @@ class Parser:
                     prop.set("retention_period", self._parse_retention_period())
 
                 self._match(TokenType.COMMA)
+
+                if self._index == index:
+                    # An unknown option consumes nothing: stop instead of looping forever
+                    self.raise_error("Unable to parse option")
+                    break
 
         return prop
 
@@ -3077,12 +3083,17 @@ class Parser:
 
         if self._match(TokenType.L_PAREN):
             while self._curr and not self._match(TokenType.R_PAREN):
+                index = self._index
                 if self._match_text_seq("FILTER_COLUMN", "="):
                     prop.set("filter_column", self._parse_column())
                 elif self._match_text_seq("RETENTION_PERIOD", "="):
                     prop.set("retention_period", self._parse_retention_period())
 
                 self._match(TokenType.COMMA)
+
+                if self._index == index:
+                    self.raise_error("Unable to parse option")
+                    break
 
         return prop
 
